@@ -585,7 +585,7 @@ class Arc(Term):
         s = self.start
         e = self.end
         r = e - s
-        c = s + r
+        c = e
         left = s > e
         right = s < e
         y = (
